@@ -90,7 +90,8 @@ def case(item):
     try:
         f = os.path.join(d, "in.tsv" if sep == "\t" else "in.csv")
         cf = None
-        cl_of = {"mA": 7, "mB": 3, "mC": 7}
+        # integer cluster ids as PyClone-VI emits them; 10 and 2 sort differently as numbers and as strings
+        cl_of = {"mA": 10, "mB": 2, "mC": 10}
         if clustered:
             cf = os.path.join(d, "clusters.tsv")
             with open(cf, "w") as fh:
